@@ -166,6 +166,11 @@ class CrashesImpl(Crashes):
         return cs
 
     def run_case(self, ctx, case):
+        if "_i" not in case or not hasattr(self, "results"):
+            # replay of one crash point: fork that single writer again
+            case["_i"] = 0
+            self.dry_error = {}
+            self.results = self.run_all(ctx, [case])
         evs, rec, status = self.results[case["_i"]]
         if any(e["ev"] == "childerror" for e in evs):
             # the child died from an exception of its own (not from the injected crash): an observation about the code under test
@@ -208,8 +213,6 @@ class CrashesImpl(Crashes):
 
 
 def run(ctx, replay=None):
-    if replay is not None:
-        raise tlc.MachineryError("C11 replays are re-run through the normal check (crash points are re-enumerated): ./check C11")
     return core.run_property(
         ctx, [CrashesImpl()], level="fault_enumeration",
         assumptions=["process death = os._exit / SIGKILL of the writer process (the kernel page cache survives; power loss is not modelled)",
